@@ -10,6 +10,13 @@ Model of prometheus_client/registry.py (CollectorRegistry, RestrictedRegistry) a
   harness gives every object its own `id`)
 * what a sample carries besides its name (labels, value, timestamp, exemplar) is an opaque payload: the
   registry never looks at it
+* the DECISION STRUCTURE of `register`, `unregister`, `set_target_info`, `collect`, `_get_names` and
+  `RestrictedRegistry.collect` (which test guards which store, statement order, operator polarity) is read from the
+  AST of registry.py on every run (`Generated/Registry.lean`, `extract/sites/registry.py`) and CONSULTED here: under
+  the reference flags each function is the reference body (`Lemmas/Registry.lean`, section "the code has the
+  reference shape", proves this by `decide` on the flags — every theorem of C06/C07 goes through those lemmas); on a
+  tree whose code has one of the recognised other shapes the function does what THAT code does
+  (`registerIncremental`, `setTargetInfoWith false`, …), the `decide`s fail and the theorems stop checking
 -/
 import PromVerif.Py.Err
 import PromVerif.Generated.Registry
@@ -128,22 +135,45 @@ def addAll (result : List Name) (ns : List Name) : List Name := ns.foldl appendN
 /-- `metric.name + suffix for suffix in [''] + type_suffixes.get(metric.type, [])` -/
 def familyNames (m : Name × MType) : List Name := ([] :: suffixesOf m.2).map (fun suf => m.1 ++ suf)
 
-/-- `CollectorRegistry._get_names`: every name is recorded once, in order of first occurrence -/
-def getNames (autoDescribe : Bool) (c : Collector) : List Name :=
-  match described autoDescribe c with
+/-- the loop of `_get_names` over what `desc_func()` returned (`none`: no `desc_func`, `return []`) -/
+def namesOfDescribed : Option (List (Name × MType)) → List Name
   | none => []
   | some ms => ms.foldl (fun result m => addAll result (familyNames m)) []
+
+/-- `CollectorRegistry._get_names`: every name is recorded once, in order of first occurrence.  The fall-back to
+`collect()` exists only if the code has it (T1 `getNamesAutoDescribeFallback`). -/
+def getNames (autoDescribe : Bool) (c : Collector) : List Name :=
+  namesOfDescribed (described (autoDescribe && PromVerif.Generated.Registry.getNamesAutoDescribeFallback) c)
 
 /-- `for name in names: self._names_to_collectors[name] = collector` -/
 def setAll (o : Owner) (names : List Name) (d : List (Name × Owner)) : List (Name × Owner) :=
   names.foldl (fun d n => dSet n o d) d
 
-/-- `CollectorRegistry.register` -/
-def register (s : State) (c : Collector) : State × Option PyErr :=
+/-- `CollectorRegistry.register` as written: `duplicates = set(_names_to_collectors).intersection(names)`; `if duplicates:
+raise` — before any store — then the stores -/
+def registerAtomic (s : State) (c : Collector) : State × Option PyErr :=
   let names := getNames s.autoDescribe c
   if names.any (fun n => dHas n s.namesToCollectors) then (s, some .valueError)
   else ({ s with namesToCollectors := setAll (.coll c) names s.namesToCollectors
                  collectorToNames := dSet c names s.collectorToNames }, none)
+
+/-- `for name in names: if name in self._names_to_collectors: raise ValueError(…); self._names_to_collectors[name] = collector`
+— returns the dict reached and whether the loop completed -/
+def insertChecking (o : Owner) : List Name → List (Name × Owner) → List (Name × Owner) × Bool
+  | [], d => (d, true)
+  | n :: ns, d => if dHas n d then (d, false) else insertChecking o ns (dSet n o d)
+
+/-- `register` of a tree that tests and stores the names ONE BY ONE: a clash at the k-th name raises with the first k-1
+names already inserted (and the collector not recorded, so `unregister` cannot release them) -/
+def registerIncremental (s : State) (c : Collector) : State × Option PyErr :=
+  let names := getNames s.autoDescribe c
+  match insertChecking (.coll c) names s.namesToCollectors with
+  | (d, true) => ({ s with namesToCollectors := d, collectorToNames := dSet c names s.collectorToNames }, none)
+  | (d, false) => ({ s with namesToCollectors := d }, some .valueError)
+
+/-- `CollectorRegistry.register`, in the statement order the code has (T1 `registerChecksAllBeforeStore`) -/
+def register (s : State) (c : Collector) : State × Option PyErr :=
+  if PromVerif.Generated.Registry.registerChecksAllBeforeStore then registerAtomic s c else registerIncremental s c
 
 /-- the `collect()` calls `register` itself makes: `_get_names` runs `desc_func()` once, and `desc_func` is
 `collector.collect` exactly when the collector has no `describe` attribute and auto-describe is on (a separate log:
@@ -159,23 +189,46 @@ def delNames : List (Name × Owner) → List Name → List (Name × Owner) × Bo
   | d, [] => (d, true)
   | d, n :: ns => if dHas n d then delNames (dDel n d) ns else (d, false)
 
-/-- `CollectorRegistry.unregister` -/
-def unregister (s : State) (c : Collector) : State × Option PyErr :=
-  match dGet c s.collectorToNames with
+/-- the names `unregister` releases: `self._collector_to_names[collector]` (T1 `unregisterTakesRecordedNames`; `none` =
+`KeyError`), or — on a tree that does not read the record — `self._get_names(collector)` computed afresh -/
+def releasedNames (s : State) (c : Collector) : Option (List Name) :=
+  if PromVerif.Generated.Registry.unregisterTakesRecordedNames then dGet c s.collectorToNames
+  else some (getNames s.autoDescribe c)
+
+/-- `CollectorRegistry.unregister`, given the names it sets out to release -/
+def unregisterOf (released : Option (List Name)) (s : State) (c : Collector) : State × Option PyErr :=
+  match released with
   | none => (s, some .keyError)
   | some names =>
     match delNames s.namesToCollectors names with
     | (d, true) => ({ s with namesToCollectors := d, collectorToNames := dDel c s.collectorToNames }, none)
     | (d, false) => ({ s with namesToCollectors := d }, some .keyError)
 
-/-- `CollectorRegistry.set_target_info` -/
-def setTargetInfo (s : State) (labels : Option Labels) : State × Option PyErr :=
+/-- `CollectorRegistry.unregister` -/
+def unregister (s : State) (c : Collector) : State × Option PyErr := unregisterOf (releasedNames s c) s c
+
+/-- the clash test of `set_target_info`, `not self._target_info and 'target_info' in self._names_to_collectors`, with the
+polarity and the connective the code has (T1) -/
+def tiClashTest (previous : Option Labels) (n2c : List (Name × Owner)) : Bool :=
+  let a := if PromVerif.Generated.Registry.setTargetInfoClashNegatesPrevious then !truthy previous else truthy previous
+  let b := dHas tiName n2c
+  if PromVerif.Generated.Registry.setTargetInfoClashIsConjunction then a && b else a || b
+
+/-- `CollectorRegistry.set_target_info` with the assignment `self._target_info = …` placed after the `if` (as written:
+`storeAfterCheck`) or before it, the tests reading the saved previous value (then a raise leaves the NEW labels stored).
+`elif previous:` guards the pop iff the code has the guard. -/
+def setTargetInfoWith (storeAfterCheck : Bool) (s : State) (labels : Option Labels) : State × Option PyErr :=
+  let rejected : State := if storeAfterCheck then s else { s with targetInfo := labels }
   if truthy labels then
-    if !truthy s.targetInfo && dHas tiName s.namesToCollectors then (s, some .valueError)
+    if tiClashTest s.targetInfo s.namesToCollectors then (rejected, some .valueError)
     else ({ s with namesToCollectors := dSet tiName .empty s.namesToCollectors, targetInfo := labels }, none)
-  else if truthy s.targetInfo then
+  else if truthy s.targetInfo || !PromVerif.Generated.Registry.setTargetInfoClearsOnlyWhenPreviouslySet then
     ({ s with namesToCollectors := dDel tiName s.namesToCollectors, targetInfo := labels }, none)
   else ({ s with targetInfo := labels }, none)
+
+/-- `CollectorRegistry.set_target_info`, in the statement order the code has (T1 `setTargetInfoStoresAfterCheck`) -/
+def setTargetInfo (s : State) (labels : Option Labels) : State × Option PyErr :=
+  setTargetInfoWith PromVerif.Generated.Registry.setTargetInfoStoresAfterCheck s labels
 
 /-- `CollectorRegistry.__init__` -/
 def init (autoDescribe : Bool) (targetInfo : Option Labels) : State :=
@@ -206,9 +259,12 @@ structure Collected where
   calls : List Owner
 deriving DecidableEq, Repr
 
-/-- `CollectorRegistry.collect` -/
+/-- `CollectorRegistry.collect`: the snapshot of `_collector_to_names` in dict order; the target-info family before the
+collectors' families iff the code yields it first (T1 `collectTargetInfoFirst`) -/
 def collect (s : State) : Collected :=
-  { families := tiFamily s.targetInfo ++ s.collectorToNames.flatMap (fun e => e.1.families)
+  let ti := tiFamily s.targetInfo
+  let rest := s.collectorToNames.flatMap (fun e => e.1.families)
+  { families := if PromVerif.Generated.Registry.collectTargetInfoFirst then ti ++ rest else rest ++ ti
     calls := s.collectorToNames.map (fun e => Owner.coll e.1) }
 
 /-- `Metric._restricted_metric`: `Metric(self.name, self.documentation, self.type, self.unit)` with the kept samples
@@ -221,18 +277,25 @@ def restrictedMetric (names : List Name) (f : Family) : Option Family :=
 /-- `collectors.add(x)` on a set kept as a list -/
 def setAdd (o : Owner) (acc : List Owner) : List Owner := if o ∈ acc then acc else acc ++ [o]
 
+/-- `collectors.add(x)` when `collectors` is the set the code builds (T1 `restrictedCollectorsIsSet`), `collectors.append(x)`
+on a tree that gathers them in a list -/
+def collAdd (o : Owner) (acc : List Owner) : List Owner :=
+  if PromVerif.Generated.Registry.restrictedCollectorsIsSet then setAdd o acc else acc ++ [o]
+
 /-- the collector set built by the `for name in self._name_set` loop of `RestrictedRegistry.collect`
 (iteration order of a Python set is unspecified; theorems are stated up to permutation) -/
 def selectCollectors (n2c : List (Name × Owner)) : List Name → List Owner → List Owner
   | [], acc => acc
   | n :: ns, acc =>
     match dGet n n2c with
-    | some o => selectCollectors n2c ns (setAdd o acc)
+    | some o => selectCollectors n2c ns (collAdd o acc)
     | none => selectCollectors n2c ns acc
 
 /-- `RestrictedRegistry.collect` of `registry.restricted_registry(names)` -/
 def restrictedCollect (names : List Name) (s : State) : Collected :=
-  let ti := if decide (tiName ∈ names) && truthy s.targetInfo then tiFamily s.targetInfo else []
+  let requested := decide (tiName ∈ names) || !PromVerif.Generated.Registry.restrictedTargetInfoNeedsRequested
+  let configured := truthy s.targetInfo || !PromVerif.Generated.Registry.restrictedTargetInfoNeedsConfigured
+  let ti := if requested && configured then tiFamily s.targetInfo else []
   let collectors := selectCollectors s.namesToCollectors names []
   { families := ti ++ collectors.flatMap (fun o => o.families.filterMap (restrictedMetric names))
     calls := collectors }
